@@ -27,7 +27,9 @@
 (* whichever engines own the sensor and the target, and also when the row  *)
 (* is stored twice: the observation table is a BAG), RunContinues (the     *)
 (* only way a run stops early is MissingEphemerisError), ImporterReadOnly  *)
-(* (rows AND schema: opening the database creates nothing in it).          *)
+(* (rows AND schema: opening the database creates nothing in it),          *)
+(* OutputFaithful (the truth rows the run writes to its output database    *)
+(* are one per agent and step, at that step's epoch, with the state held). *)
 (* Named deviations (each must be refuted by TLC):                         *)
 (*   CountBasedCheck     (D9, as once coded) completeness judged by COUNTS *)
 (*   SkipEpochWithoutRow the Epoch row is resolved first; "nothing to      *)
@@ -45,6 +47,12 @@
 (*                       POSITION and the target only: of two different    *)
 (*                       sensors at the same coordinates only one          *)
 (*                       observation of a target survives                  *)
+(*   FreezeRoster        the own-sensors filter of an engine's query is    *)
+(*                       built at its first load and never refreshed: a    *)
+(*                       sensor that joins later is never loaded, one that *)
+(*                       left still is                                     *)
+(*   StampCachedEpoch    an imported agent's output rows keep the Julian   *)
+(*                       date cached at the initial save                   *)
 (*   CrashOnDuplicate    (as once coded) the "dropped duplicate" branch of *)
 (*                       loadImportedObservations raises AttributeError    *)
 (*   KeepDuplicates      a row stored twice is handed to the filter twice  *)
@@ -61,6 +69,8 @@ CONSTANTS Configs,              \* set of configuration records explored in mode
           LoadOnlyOwnTargets,
           MatchWholeSecond,
           DedupIgnoresSensor,
+          FreezeRoster,
+          StampCachedEpoch,
           CrashOnDuplicate,
           KeepDuplicates,
           CreateMissingTables
@@ -79,14 +89,17 @@ VARIABLES cfg,      \* [agents, imported, targets, nsteps,
                     \*  schema: "full" (every table of the data model exists) or "minimal" (only the tables the importer
                     \*       reads: epochs, agents, truth ephemerides, observations),
                     \*  born: [agents -> step in which the agent joins the scenario (0 = from the start)],
+                    \*  gone: [agents -> first step in which the agent is no longer in the scenario (nsteps + 1 = stays)]:
+                    \*       Scenario.addSensor / removeSensor (or the events) between two steps change an engine's roster,
                     \*  engines: set of engine ids, sensorOf: [sensors -> engine], tracks: [engines -> SUBSET targets]]
           k, pc,
           held,     \* [agents -> <<source, epoch>>]
           registered,
           done,     \* engines that have assessed (and loaded their imported observations) this step
           reached,  \* [obs -> number of times handed to the filter update of the observed target this step]
+          out,      \* truth-ephemeris rows the run has written to its OUTPUT database: set of <<a, epoch stamp, held[a]>>
           impdb     \* the importer database as the run leaves it: <<epochs, rows, obs, dup, schema, near>>
-vars == <<cfg, k, pc, held, registered, done, reached, impdb>>
+vars == <<cfg, k, pc, held, registered, done, reached, impdb, out>>
 
 SensorsIn(c) == c.agents \ c.targets
 \* what an importer database / scenario pair looks like: records hang on Epoch rows (foreign key), observations are
@@ -97,7 +110,7 @@ WellFormed(c) ==
   /\ \A o \in c.obs : o[1] \in c.epochs /\ o[2] \in c.targets /\ o[3] \in SensorsIn(c)
   /\ c.dup \subseteq c.obs /\ c.schema \in {"full", "minimal"}
   /\ \A r \in c.near : r[2] \in 0..c.nsteps /\ r[3] \in {"before", "after", "mid"}
-  /\ DOMAIN c.site = SensorsIn(c)
+  /\ DOMAIN c.site = SensorsIn(c) /\ DOMAIN c.born = c.agents /\ DOMAIN c.gone = c.agents
   /\ DOMAIN c.sensorOf = SensorsIn(c) /\ \A s \in SensorsIn(c) : c.sensorOf[s] \in c.engines
   /\ DOMAIN c.tracks = c.engines /\ \A t \in c.targets : \E e \in c.engines : t \in c.tracks[e]
 
@@ -109,10 +122,11 @@ InitWith(c) ==
   /\ done = {}
   /\ reached = [o \in c.obs |-> 0]
   /\ impdb = <<c.epochs, c.rows, c.obs, c.dup, c.schema, c.near>>
+  /\ out = {}
 Init == \E c \in Configs : InitWith(c)
 
 \* agents that take part in step j (an agent added by an event of step j is propagated / imported in step j)
-Active(j) == {a \in cfg.agents : cfg.born[a] <= j}
+Active(j) == {a \in cfg.agents : cfg.born[a] <= j /\ j < cfg.gone[a]}
 RowsAt(j) == {r \in cfg.rows : r[2] = j}
 HasRow(a, j) == <<a, j>> \in cfg.rows
 SensorsOf(e) == {s \in SensorsIn(cfg) : cfg.sensorOf[s] = e}
@@ -125,7 +139,7 @@ OpenImporter ==
   /\ pc = "closed"
   /\ pc' = "idle"
   /\ impdb' = IF CreateMissingTables THEN [impdb EXCEPT ![5] = "full"] ELSE impdb
-  /\ UNCHANGED <<cfg, k, held, registered, done, reached>>
+  /\ UNCHANGED <<cfg, k, held, registered, done, reached, out>>
 
 \* ticToc; realtime agents are propagated by jobs, the others register with the importer
 BeginStep ==
@@ -136,7 +150,7 @@ BeginStep ==
   /\ done' = {}
   /\ reached' = [o \in cfg.obs |-> 0]
   /\ pc' = "registered"
-  /\ UNCHANGED <<cfg, impdb>>
+  /\ UNCHANGED <<cfg, impdb, out>>
 
 \* records of a at other epochs inside the wall-clock second of scenario epoch j: as designed they are never used
 SameSecond(a, j, sides) == {r \in cfg.near : r[1] = a /\ r[2] = j /\ r[3] \in sides}
@@ -161,23 +175,23 @@ ImportOk ==
   /\ held' = AfterImport
   /\ registered' = {a \in registered : ~Matched(a)}
   /\ pc' = "imported"
-  /\ UNCHANGED <<cfg, k, done, reached, impdb>>
+  /\ UNCHANGED <<cfg, k, done, reached, impdb, out>>
 
 \* a scenario whose agents are all realtime has no ephemeris importer at all
 SkipImport ==
   /\ pc = "registered" /\ cfg.imported = {}
   /\ pc' = "imported"
-  /\ UNCHANGED <<cfg, k, held, registered, done, reached, impdb>>
+  /\ UNCHANGED <<cfg, k, held, registered, done, reached, impdb, out>>
 
 \* MissingEphemerisError: the run stops
 ImportMissing ==
   /\ pc = "registered" /\ cfg.imported # {} /\ ~(Complete \/ EpochSkipped)
   /\ pc' = "raised"
-  /\ UNCHANGED <<cfg, k, held, registered, done, reached, impdb>>
+  /\ UNCHANGED <<cfg, k, held, registered, done, reached, impdb, out>>
 
 \* engine e's assess(): loadImportedObservations, then Scenario files them under the observed target (obs_dict)
 Queried(e) == {o \in cfg.obs : /\ o[1] = k
-                               /\ (LoadEveryEngine \/ o[3] \in SensorsOf(e))
+                               /\ (LoadEveryEngine \/ o[3] \in SensorsOf(e) \cap Active(IF FreezeRoster THEN 1 ELSE k))
                                /\ (LoadOnlyOwnTargets => o[2] \in cfg.tracks[e])}
 \* observations of one target made from one place; as designed two DIFFERENT sensors are two observations
 SamePlace(e, o) == {p \in Queried(e) : p[2] = o[2] /\ cfg.site[p[3]] = cfg.site[o[3]]}
@@ -190,24 +204,29 @@ LoadObs(e) ==
   /\ ~(CrashOnDuplicate /\ HitsDuplicate(e))
   /\ done' = done \cup {e}
   /\ reached' = [o \in cfg.obs |-> IF o \in Loads(e) THEN reached[o] + Copies(o) ELSE reached[o]]
-  /\ UNCHANGED <<cfg, k, pc, held, registered, impdb>>
+  /\ UNCHANGED <<cfg, k, pc, held, registered, impdb, out>>
 
 \* deviation: the branch that drops the duplicate raises, stepForward dies
 LoadObsCrash(e) ==
   /\ pc = "imported" /\ e \in cfg.engines \ done
   /\ CrashOnDuplicate /\ HitsDuplicate(e)
   /\ pc' = "crashed"
-  /\ UNCHANGED <<cfg, k, held, registered, done, reached, impdb>>
+  /\ UNCHANGED <<cfg, k, held, registered, done, reached, impdb, out>>
 
 \* after the last engine: one EstUpdate job per estimate, fed with everything filed under its target
 UpdateFilters ==
   /\ pc = "imported" /\ done = cfg.engines
   /\ pc' = "loaded"
-  /\ UNCHANGED <<cfg, k, held, registered, done, reached, impdb>>
+  /\ UNCHANGED <<cfg, k, held, registered, done, reached, impdb, out>>
 
+\* the step is complete; on an output step saveDatabaseOutput writes one truth row per agent of the scenario, stamped with
+\* the agent's own epoch (deviation: an imported agent's Julian date is cached at the initial save and never refreshed,
+\* because importState assigns the time directly)
+Stamp(a) == IF StampCachedEpoch /\ a \in cfg.imported THEN 0 ELSE k
 EndStep ==
   /\ pc = "loaded"
   /\ pc' = "idle"
+  /\ out' = out \cup {<<a, Stamp(a), held[a]>> : a \in Active(k)}
   /\ UNCHANGED <<cfg, k, held, registered, done, reached, impdb>>
 
 \* the engines assess one after the other (dictionary order in the code; the outcome does not depend on the order)
@@ -223,11 +242,17 @@ ImportFaithful ==
 NoStaleState ==
   pc \in {"imported", "loaded", "idle"} => \A a \in cfg.imported \cap Active(k) : held[a][2] = k
 \* stored observations of the epoch reach the filter of their target at that epoch - each exactly once, none of another epoch
-ExpectedCount(o) == IF o[1] = k THEN 1 ELSE 0
+\* ... iff its sensor belongs to an engine of the scenario AT THAT EPOCH (a sensor may join or leave between steps)
+ExpectedCount(o) == IF o[1] = k /\ o[3] \in Active(k) THEN 1 ELSE 0
 ObsReachFilter ==
   pc = "loaded" => \A o \in cfg.obs : o[2] \in Active(k) => reached[o] = ExpectedCount(o)
 \* a run ends by reaching its last step or by MissingEphemerisError - an importer database never makes it die otherwise
 RunContinues == pc # "crashed"
+\* what the run writes out is what the agents held: exactly one truth row per agent and completed step, stamped with that
+\* step's epoch and carrying the state of that epoch (for an imported agent: the importer record of that epoch)
+OutputFaithful ==
+  pc = "idle" => /\ \A r \in out : r[2] \in 1..k /\ r[1] \in Active(r[2]) /\ r[3][2] = r[2]
+                 /\ \A j \in 1..k : \A a \in Active(j) : Cardinality({r \in out : r[1] = a /\ r[2] = j}) = 1
 \* the importer database is never modified by a run: neither its rows nor its schema
 ImporterReadOnly == [][impdb' = impdb]_vars
 \* an observation whose sensor is tasked by an engine that does not track its target
